@@ -807,7 +807,8 @@ def rule_score_fresh(ctx: Ctx) -> None:
     m = repo.module(EVO)
     fn = repo.anchor(EVO, "EvolutionarySolver.solve")
     ctx.touch(m, fn)
-    stores = [a for a in ast.walk(fn) if isinstance(a, ast.Assign) and isinstance(a.targets[0], ast.Subscript) and norm(a.targets[0].value) == "population"
+    pops = {norm(a.targets[0]) for a in ast.walk(fn) if isinstance(a, ast.Assign) and isinstance(a.value, ast.Call) and call_attr(a.value) == "population_initialization"}
+    stores = [a for a in ast.walk(fn) if isinstance(a, ast.Assign) and isinstance(a.targets[0], ast.Subscript) and norm(a.targets[0].value) in pops
               and isinstance(a.value, ast.Tuple) and len(a.value.elts) == 2]
     if len(stores) != 1:
         raise AnalysisError("solve(): the store `population[j] = (score, circuit)` was not found")
